@@ -90,6 +90,10 @@ func c03Wheres() []c03Where {
 		{"key = 'a002'", "", ""},
 		{"key > 'a000' & n > 1", "num", "int(value) as n"}, {"key between 'a001' and 'a009' & l > 1", "", "strlen(value) as l"},
 		{"key ^= 'a0' & value != '2' & u != 'A003'", "", "upper(key) as u"}, {"value != '1' & n + 1 > 1", "num", "int(value) as n"},
+		// one alias referenced three times within the filter, and three times within the select list
+		{"n * 2 >= 2 & 6 <= n * 3 & n + 0 < 9", "num", "int(value) as n"},
+		{"n > 0", "num", "int(value) as n, n + 1 as a1, n * 2 as a2, n - 3 as a3"},
+		{"len(p) >= 1", "csv", "split(value, ',') as p, len(p) as l1, len(p) as l2, len(p) as l3"},
 		// predicates that row iteration refuses on some or all pairs (reversed
 		// bounds, zero divisors, vectors of different lengths): batch iteration
 		// may not complete where row iteration fails
